@@ -99,7 +99,7 @@ def main(tier):
     rf = os.path.join(d, 'peel.json')
     rc, out = V.run([hd, 'peel', gt, rf], timeout=1800)
     if rc != 0:
-        raise V.Broken('h_dialect peel failed rc=%d: %s' % (rc, out[-1500:]))
+        V.harness_exit('h_dialect:peel', rc, out)
     rr = V.tlc(PT, cfg(d, 'recs', 'Spec', 1, ['AllPartitions']), env={'PEELRECS': rf}, timeout=3000, cont=True, mem='16g')
     ev.add_tlc('Peel records: %d graphs (%d enumerated + random)' % (len(lines), len(graphs)), rr)
     recs = json.load(open(rf))['recs']
@@ -164,7 +164,7 @@ def main(tier):
     prf = os.path.join(d, 'planar.json')
     rc, out = V.run([hd, 'planar', pt, prf], timeout=1800)
     if rc != 0:
-        raise V.Broken('h_dialect planar failed rc=%d: %s' % (rc, out[-1500:]))
+        V.harness_exit('h_dialect:planar', rc, out)
     pdata = json.load(open(prf))
     pdata['GU'] = U * pdata['S']
     json.dump(pdata, open(prf, 'w'))
